@@ -70,6 +70,10 @@ func (w *World) intBoundD(v ssa.Value, at ssa.Instruction, d int) (lo, hi int64,
 			} else {
 				lo, known = max64(lo, 0), true
 			}
+		} else if _, isB := x.Call.Value.(*ssa.Builtin); !isB {
+			if l1, h1, k1 := w.resultIntBound(x, 0, d); k1 {
+				lo, hi, known = max64(lo, l1), min64(hi, h1), true
+			}
 		} else if b, isB := x.Call.Value.(*ssa.Builtin); isB && b.Name() == "min" && len(x.Call.Args) == 2 {
 			l1, h1, k1 := w.intBoundD(x.Call.Args[0], at, d+1)
 			l2, h2, k2 := w.intBoundD(x.Call.Args[1], at, d+1)
@@ -119,6 +123,13 @@ func (w *World) intBoundD(v ssa.Value, at ssa.Instruction, d int) (lo, hi int64,
 			}
 		} else if x.Op == token.AND && k2 && l2 >= 0 {
 			lo, hi, known = max64(lo, 0), min64(hi, h2), true
+		}
+	case *ssa.Extract:
+		// k-th result of a module function: the join over its returns of what is returned there (whatever the arguments)
+		if c, isCall := x.Tuple.(*ssa.Call); isCall {
+			if l1, h1, k1 := w.resultIntBound(c, x.Index, d); k1 {
+				lo, hi, known = max64(lo, l1), min64(hi, h1), true
+			}
 		}
 	case *ssa.Convert:
 		// narrowing conversion: result range is the type's; widened values keep the operand's range
@@ -1259,4 +1270,35 @@ func (w *World) globalHasherSize(v ssa.Value, d int) (int64, bool) {
 		}
 	}
 	return 0, false
+}
+
+// resultIntBound: interval of the idx-th result of a statically resolved module callee, joined over its returns and
+// computed inside the callee without any knowledge about the arguments (so it holds at every call site).
+func (w *World) resultIntBound(c *ssa.Call, idx int, d int) (lo, hi int64, ok bool) {
+	callee := c.Call.StaticCallee()
+	if callee == nil || !inModule(callee) || callee.Blocks == nil || d > 8 {
+		return 0, 0, false
+	}
+	if w.resBusy == nil {
+		w.resBusy = map[*ssa.Function]bool{}
+	}
+	if w.resBusy[callee] {
+		return 0, 0, false
+	}
+	w.resBusy[callee] = true
+	defer delete(w.resBusy, callee)
+	lo, hi = inf, -inf
+	n := 0
+	for _, r := range returnsFlat(callee) {
+		if idx >= len(r.Results) {
+			return 0, 0, false
+		}
+		l, h, k := w.intBoundD(r.Results[idx], r, d+3)
+		if !k {
+			return 0, 0, false
+		}
+		n++
+		lo, hi = min64(lo, l), max64(hi, h)
+	}
+	return lo, hi, n > 0 && lo <= hi
 }
